@@ -168,6 +168,10 @@ fn gen_scenario(kind: Kind, w: &mut W) -> Scenario {
         // the rest of the tape is read by `c18b::run`
         return Scenario { stream_flood: None, stream_gate: None, yield_first: false, clients: vec![], late: vec![], singles: vec![], suspends: false, mode: "REAL-SMOL".into(), real: vec![] };
     }
+    if first == NOTIFIED_MODE && kind == Kind::C08 && w.tape.draw(2) == 0 {
+        // the rest of the tape is read by `c08o::run`
+        return Scenario { stream_flood: None, stream_gate: None, yield_first: false, clients: vec![], late: vec![], singles: vec![], suspends: false, mode: "OPAQUE".into(), real: vec![] };
+    }
     if first == NOTIFIED_MODE && kind == Kind::C10 {
         // the rest of the tape is read by `c10n::run`
         return Scenario { stream_flood: None, stream_gate: None, yield_first: false, clients: vec![], late: vec![], singles: vec![], suspends: false, mode: "NOTIFIED".into(), real: vec![] };
@@ -581,6 +585,9 @@ impl Prop for ServerProp {
         let mut sc = gen_scenario(self.kind, &mut world.borrow_mut());
         if sc.mode == "NOTIFIED" {
             return crate::props::c10n::run(world);
+        }
+        if sc.mode == "OPAQUE" {
+            return crate::props::c08o::run(world);
         }
         if sc.mode == "REAL-SMOL" {
             return crate::props::c18b::run(world);
